@@ -8,7 +8,7 @@ PROPS = ["Props/C07.v"]
 
 def run(ctx):
     def extra(ctx):
-        return gens.small_universe(ctx, sample=ctx.n(500, None))
+        return gens.small_universe(ctx, sample=ctx.n(500, None)) + gens.prio_family(ctx, ctx.n(150, 1500))
 
     def oracle(ap, obs, sc, r):
         import projects
